@@ -6,7 +6,9 @@ Domain : (A) all repository sample sources as one workspace, (B) textmut mutatio
          punctuation character, every line end and one past it, lines past the end of file
          (thorough tier: every (line, character) of every sample); methods: hover, definition,
          implementation, references, documentHighlight, rename, signatureHelp, completion,
-         codeAction (ranges from pairs of positions).
+         codeAction (ranges from pairs of positions); (D) preprocessed documents whose macros
+         move columns; (E) valid programs: rendered reference-model programs (any layout) and
+         idiom modules (generic named like a specific, procedure pointers, operators, ...).
 Oracle : no error response; result validates against the method's LSP 3.17 shape; every
          range/location/TextEdit/diagnostic/relatedInformation anywhere in a result or in
          publishDiagnostics addresses an existing place of the server's copy of the target.
@@ -18,7 +20,7 @@ import shutil
 
 from hypothesis import strategies as st
 
-from harness import textmut
+from harness import fmodel, idioms, textmut
 from harness.findings import Disc, exc_signature
 from harness.lsp import Server, uri_of
 from harness.probe import HEAVY, METHODS, Prober, all_positions, interesting_positions
@@ -30,7 +32,8 @@ RULE = (
     "(A) enumeration: every repository sample (84 files, one workspace) x interesting positions (identifier "
     "start/middle/end, punctuation, end of line, one past it, past end of file; thorough: all (line,char)) x 9 "
     "methods; (B) Hypothesis: textmut mutations of the samples x the same positions; (C) every entry of the "
-    "intrinsic/statement/keyword tables as the word under the cursor.  Non-trivial = the request returned a "
+    "intrinsic/statement/keyword tables as the word under the cursor; (D) preprocessed documents; (E) valid "
+    "programs from the reference model and the idiom library.  Non-trivial = the request returned a "
     "non-null result or the position is past the end of a line/file; distinct by (document hash, position, method)."
 )
 ASSUMPTIONS = [
@@ -317,8 +320,56 @@ def pp_oracle(ctx):
     return oracle
 
 
+# ------------------------------------------------------------------ (E) valid programs (reference model, idiom modules)
+@st.composite
+def valid_case_st(draw):
+    if draw(st.integers(0, 2)) == 0:
+        prog, layout = draw(fmodel.program_st(nfiles=(1, 2))), draw(fmodel.layout_st)
+        files = dict(fmodel.render(prog, layout).files)
+        return {"files": files, "kind": "model:" + ("fixed" if layout.fixed else "free")}
+    mods = [draw(idioms.idiom_module_st(index=i)) for i in range(draw(st.integers(1, 2)))]
+    files = {"idi%d.f90" % i: m["text"] for i, m in enumerate(mods)}
+    return {"files": files, "kind": "idioms", "idioms": sorted({i for m in mods for i in m["idioms"]})}
+
+
+def valid_oracle(ctx):
+    state = {"k": 0}
+
+    def oracle(case):
+        root = os.path.join(ctx.scratch, "c09_valid")
+        setup_workspace(root, case["files"])
+        srv = Server(root=root, argv=ARGV)
+        names = sorted(case["files"])
+        out = list(open_all(srv, root, names))
+        ctx.event("valid:" + case["kind"])
+        for i in case.get("idioms", []):
+            ctx.event("idiom:" + i)
+        state["k"] += 1
+        for n in names:
+            path = os.path.join(root, n)
+            f = srv.file(path)
+            if f is None:
+                continue
+            pos = interesting_positions(list(f.contents_split), dense=True)
+            if len(pos) > 220:
+                stride = len(pos) // 220 + 1
+                pos = pos[state["k"] % stride :: stride] + pos[-3:]
+
+            def record(discs, p, method, n=n):
+                for d in discs:
+                    d.detail = {"target": n, "method": method, "line": p[0], "character": p[1]}
+                out.extend(discs)
+
+            probe_document(ctx, srv, path, pos, record, heavy_every=2, dochash=f.contents_split and hash(tuple(f.contents_split)))
+        return out
+
+    return oracle
+
+
 def run(ctx):
     part_corpus(ctx)
+    ctx.hyp(valid_case_st(), valid_oracle(ctx), max_examples=ctx.n(10, 150), collect=True, label="valid-programs",
+            case_of=lambda c: {"files": c["files"], "target": None, "all_positions": True})
     part_intrinsics(ctx)
     ctx.hyp(pp_doc_st(), pp_oracle(ctx), max_examples=ctx.n(12, 200), collect=True, label="pp-docs",
             case_of=lambda c: {"files": {"ppdoc" + c["suffix"]: c["text"] if c["suffix"] != ".F" else
